@@ -2,7 +2,7 @@
 wall-clock speed and concurrently running executors (+ ThreadSanitizer on the concurrent batch in the thorough tier)."""
 from __future__ import annotations
 import json, os, random, re, shutil, subprocess, time
-from .runner import Inconclusive, ensure_build, SCRATCH, REPLAYS, write_evidence, case_to_json, sig_hash
+from .runner import Inconclusive, ensure_build, SCRATCH, REPLAYS, write_evidence, case_to_json, sig_hash, scaled
 from .gen_core import gen_case
 from .gen_coll import gen_coll_case
 from .prog import S
@@ -130,7 +130,7 @@ def main(tier, seed, replay):
         print(f"INCONCLUSIVE property={PROPERTY} reason={e}")
         return 2
     rng = random.Random(f"C07/{seed}/{tier}")
-    n = 240 if tier == "quick" else 1200
+    n = scaled(240 if tier == "quick" else 1200)
     cases = gen_cases(rng, n, seed)
     tag = f"C07.{tier}.{seed}"
     V, inconc = [], []
